@@ -652,6 +652,53 @@ fn l0_halt_probe(lean: &mut Lean) -> Option<Failure> {
     Some(Failure { kind: "impl-vs-oracle", detail: format!("write halt on 30+ L0 runs: the writer was halted = {halted}; after major_compact the keyspace has {runs_after} L0 run(s), but the writer did not return from insert() within 30 s - it never proceeds"), witness: None })
 }
 
+/// Sequence numbers are drawn inside the journal critical section, on every single-write path: a writer A is held
+/// at `write.locked` (it has the journal lock, no seqno yet); a second write B to the same key (insert / remove /
+/// remove_weak / a one-item batch) starts and queues at the lock; A is released.  B took the lock after A, so B's
+/// effect is the final one - for point reads, scans and snapshots alike.
+fn seqno_inside_lock_probe() -> Option<Failure> {
+    use std::sync::atomic::{AtomicBool, Ordering};
+    static PARKED: AtomicBool = AtomicBool::new(false);
+    static GO: AtomicBool = AtomicBool::new(false);
+    let mut out = None;
+    for kind in ["insert", "remove", "remove_weak", "batch-remove"] {
+        let scratch = Scratch::new("sil");
+        let db = Database::builder(scratch.join("db")).worker_threads_unchecked(0).open().ok()?;
+        let a = db.keyspace("a", KeyspaceCreateOptions::default).ok()?;
+        a.insert("k", "v0").ok()?;
+        PARKED.store(false, Ordering::Release); GO.store(false, Ordering::Release);
+        fjall::verif::pause::set(Some(Arc::new(|name: &'static str| {
+            if name == "write.locked" && std::thread::current().name() == Some("sil-holder") { PARKED.store(true, Ordering::Release); while !GO.load(Ordering::Acquire) { std::thread::sleep(Duration::from_millis(1)); } }
+        })));
+        let a1 = a.clone();
+        let ha = std::thread::Builder::new().name("sil-holder".into()).spawn(move || a1.insert("k", "A")).ok()?;
+        let t0 = Instant::now();
+        while !PARKED.load(Ordering::Acquire) && t0.elapsed() < Duration::from_secs(30) { std::thread::sleep(Duration::from_millis(1)); }
+        let (a2, db2) = (a.clone(), db.clone());
+        let hb = std::thread::Builder::new().name("sil-follower".into()).spawn(move || match kind {
+            "insert" => a2.insert("k", "B"),
+            "remove" => a2.remove("k"),
+            "remove_weak" => a2.remove_weak("k"),
+            _ => { let mut b = db2.batch(); b.remove(&a2, "k"); b.commit() }
+        }).ok()?;
+        std::thread::sleep(Duration::from_millis(150));
+        let follower_early = hb.is_finished();
+        GO.store(true, Ordering::Release);
+        let ra = ha.join(); let rb = hb.join();
+        fjall::verif::pause::set(Some(Arc::new(hook)));
+        if !matches!(ra, Ok(Ok(()))) || !matches!(rb, Ok(Ok(()))) { continue; }
+        let want: Option<Vec<u8>> = if kind == "insert" { Some(b"B".to_vec()) } else { None };
+        let got = a.get("k").ok()?.map(|v| v.to_vec());
+        let scan = a.iter().filter_map(|g| g.into_inner().ok()).find(|(k, _)| &**k == b"k").map(|(_, v)| v.to_vec());
+        let snap = db.snapshot().get(&a, "k").ok()?.map(|v| v.to_vec());
+        if follower_early || got != want || scan != want || snap != want {
+            out = Some(Failure { kind: "impl-vs-oracle", detail: format!("insert(k, A) held at write.locked (journal lock taken, seqno not drawn), then {kind}(k) queued behind it: the second write completed while the first held the lock = {follower_early}; afterwards get(k) = {:?}, scan = {:?}, snapshot = {:?}, but the write that took the lock last decides: expected {:?} (the second write's seqno is not above the first one's: it was drawn outside the journal critical section)", got.as_ref().map(|v| String::from_utf8_lossy(v).to_string()), scan.as_ref().map(|v| String::from_utf8_lossy(v).to_string()), snap.as_ref().map(|v| String::from_utf8_lossy(v).to_string()), want.as_ref().map(|v| String::from_utf8_lossy(v).to_string())), witness: None });
+            break;
+        }
+    }
+    out
+}
+
 /// Known finding F27 (C14): point reads read the latest state, scans read at the snapshot instant, which the
 /// write floor keeps below a write that is between its memtable apply and its publish.  In that window one
 /// thread can `get` a value and then not find it in a scan it opens afterwards: the two reads cannot be
@@ -709,6 +756,7 @@ fn main() {
     let mut cases = 0;
     if replay.is_none() { if let Some(f) = stall_probe() { all.push((0, f)); } *hist.entry("stall-probe".to_string()).or_insert(0) += 1; }
     if replay.is_none() { if let Some(f) = worker_channel_probe() { all.push((0, f)); } *hist.entry("worker-channel-probe".to_string()).or_insert(0) += 1; }
+    if replay.is_none() { if let Some(f) = seqno_inside_lock_probe() { all.push((0, f)); } *hist.entry("seqno-inside-lock-probe".to_string()).or_insert(0) += 1; }
     if replay.is_none() && mode_c14 { if let Some(f) = witness_f27() { all.push((0, f)); } *hist.entry("witness-f27".to_string()).or_insert(0) += 1; }
     if replay.is_none() && mode_c14 { if let Some(f) = rotation_lock_order_probe() { all.push((0, f)); } *hist.entry("rotation-lock-order-probe".to_string()).or_insert(0) += 1; }
     if replay.is_none() && mode_c14 { if let Some(f) = l0_halt_probe(&mut lean) { all.push((0, f)); } *hist.entry("l0-halt-probe".to_string()).or_insert(0) += 1; }
